@@ -201,14 +201,17 @@ fn g_lenient_symbols() -> BS<(Case, &'static str)> {
     )
     .prop_map(|v| v.concat());
     let sym = (first, rest).prop_map(|(a, b)| format!("{}{}", a, b));
-    (vec(sym, 1..4), g_qopt_index(), 0u8..4)
+    (vec(sym, 1..4), g_qopt_index(), 0u8..7)
         .prop_map(|(syms, q, wrap)| {
             let body = syms.join(" ");
             let text = match wrap {
                 0 => body,
                 1 => format!("({})", body),
                 2 => format!("#({})", body),
-                _ => format!("({} . {})", body, syms[0]),
+                3 => format!("({} . {})", body, syms[0]),
+                4 => format!("'{}", syms[0]),
+                5 => format!("(a `{} ,{})", syms[0], syms[syms.len() - 1]),
+                _ => format!("#('{})", syms[0]),
             };
             (Case { text: text.into_bytes(), q }, "lenient-symbols")
         })
